@@ -40,7 +40,8 @@ def main():
         broken.append("theorems of Properties/%s.v no longer check: %s" % (pid, proof["log"][-600:]))
     if hyg:
         broken.append("hygiene: forbidden keyword in development: " + "; ".join(hyg[:3]))
-    if not binfo["ocaml_ok"]:
+    need = getattr(mod, "DRIVERS", ["driver"])
+    if any(d in binfo.get("ocaml_failed", []) for d in need):
         broken.append("extracted model does not build: " + binfo["log"][-400:])
 
     # 2. correspondence + property oracle on the implementation
